@@ -493,3 +493,104 @@ V("c14-skid-not-recorded", "C14", "break", "R14.7", "random sender key without s
   "jwe.py", "                recipient.add_header(\"skid\", skey.kid)\n", "")
 V("c14-benign-loop-index", "C14", "benign", "", "get_by_kid single-key shortcut with != form",
   "_keys.py", "        if kid is None and len(self.keys) == 1:\n            return self.keys[0]", "        if kid is None:\n            if len(self.keys) == 1:\n                return self.keys[0]")
+
+# ------------------------------------------------------------------------------------------------ C03
+V("c03-emit-other-header", "C03", "break", "R03.1", "compact output re-encodes the header (after the kid was added?) instead of the signed segment",
+  "rfc7515/compact.py", "    return signing_input + b\".\" + signature", "    return json_b64encode(obj.protected) + b\".\" + payload_segment + b\".\" + signature")
+V("c03-json-protected-reencoded", "C03", "break", "R03.1", "JSON member emits a re-encoded protected header",
+  "rfc7515/json.py", "        rv[\"protected\"] = protected_segment.decode(\"utf-8\")", "        rv[\"protected\"] = json_b64encode(dict(member.protected)).decode(\"utf-8\")")
+V("c03-kid-after-header", "C03", "break", "R03.2", "rfc7797 compact encodes the header before choosing the key",
+  "rfc7797/compact.py", "    key = guess_key(private_key, obj, True)\n    key.check_use(\"sig\")\n\n    header_segment = json_b64encode(protected)", "    header_segment = json_b64encode(protected)\n    key = guess_key(private_key, obj, True)\n    key.check_use(\"sig\")\n")
+V("c03-encode-int-floor", "C03", "break", "R03.3", "encode_int uses floor division (P-521 one octet short)",
+  "rfc7518/util.py", "    length = ((bits + 7) // 8) * 2", "    length = (bits // 8) * 2")
+V("c03-verify-floor", "C03", "break", "R03.3", "EC verify half length by floor division",
+  "rfc7518/jws_algs.py", "        length = (key_size + 7) // 8", "        length = key_size // 8")
+V("c03-detach-wrong-index", "C03", "break", "R03.4", "detach clears the signature segment",
+  "rfc7515/compact.py", "    parts[1] = \"\"", "    parts[2] = \"\"")
+V("c03-detach-json-in-place", "C03", "break", "R03.4", "detach_json_content alters its argument",
+  "rfc7515/json.py", "    rv = copy.deepcopy(value)  # don't alter original value", "    rv = value")
+V("c03-regex-allows-dot", "C03", "break", "R03.5", "url-safe pattern admits '.'",
+  "rfc7797/compact.py", "_re_urlsafe = re.compile(\"^[a-zA-Z0-9-_~]+$\")", "_re_urlsafe = re.compile(\"^[a-zA-Z0-9-_~.]+$\")")
+V("c03-regex-unanchored", "C03", "break", "R03.5", "url-safe pattern not anchored at the end",
+  "rfc7797/compact.py", "_re_urlsafe = re.compile(\"^[a-zA-Z0-9-_~]+$\")", "_re_urlsafe = re.compile(\"^[a-zA-Z0-9-_~]+\")")
+V("c03-benign-join-output", "C03", "benign", "", "compact output built with join",
+  "rfc7515/compact.py", "    return signing_input + b\".\" + signature", "    return b\".\".join([signing_input, signature])")
+
+# ------------------------------------------------------------------------------------------------ C04
+V("c04-direct-multi-allowed", "C04", "break", "R04.1", "direct mode with several recipients no longer refused",
+  "rfc7516/message.py", "            if len(recipients) > 1:\n                raise ConflictAlgorithmError(f\"Algorithm {alg.name} SHOULD have 1 recipient only\")\n", "")
+V("c04-1pu-check-enc-dropped", "C04", "break", "R04.1", "ECDH-1PU+KW accepts GCM content encryption",
+  "drafts/jwe_ecdh_1pu.py", "            tag: bytes) -> bytes:\n        self._check_enc(enc)\n        return self.__encrypt_agreed_upon_key(enc, recipient, tag)", "            tag: bytes) -> bytes:\n        return self.__encrypt_agreed_upon_key(enc, recipient, tag)")
+V("c04-zip-condition-mismatch", "C04", "break", "R04.2", "decompression keyed on the merged headers, compression on protected",
+  "rfc7516/message.py", "    msg = enc.decrypt(ciphertext, tag, cek, iv, aad)\n    if \"zip\" in obj.protected:", "    msg = enc.decrypt(ciphertext, tag, cek, iv, aad)\n    if \"zip\" in obj.protected or (getattr(obj, \"unprotected\", None) or {}).get(\"zip\"):")
+V("c04-writer-member-renamed", "C04", "break", "R04.3", "general JSON writes 'encryptedKey'",
+  "rfc7516/json.py", "            item[\"encrypted_key\"] = to_str(urlsafe_b64encode(recipient.encrypted_key))", "            item[\"encryptedKey\"] = to_str(urlsafe_b64encode(recipient.encrypted_key))")
+V("c04-compact-order", "C04", "break", "R04.3", "compact writer swaps iv and encrypted key",
+  "rfc7516/compact.py", "        urlsafe_b64encode(encrypted_key),\n        obj.base64_segments[\"iv\"],", "        obj.base64_segments[\"iv\"],\n        urlsafe_b64encode(encrypted_key),")
+V("c04-merge-order", "C04", "break", "R04.4", "protected header overrides per-recipient header",
+  "rfc7516/models.py", "        rv: Header = {}\n        rv.update(self.__parent.protected)\n        if isinstance(self.__parent, BaseJSONEncryption) and self.__parent.unprotected:\n            rv.update(self.__parent.unprotected)\n        if self.header:\n            rv.update(self.header)\n        return rv",
+  "        rv: Header = {}\n        if self.header:\n            rv.update(self.header)\n        if isinstance(self.__parent, BaseJSONEncryption) and self.__parent.unprotected:\n            rv.update(self.__parent.unprotected)\n        rv.update(self.__parent.protected)\n        return rv")
+V("c04-benign-len-ge-2", "C04", "benign", "", "multi-recipient guard as >= 2",
+  "rfc7516/message.py", "            if len(recipients) > 1:\n                raise ConflictAlgorithmError", "            if len(recipients) >= 2:\n                raise ConflictAlgorithmError")
+
+# ------------------------------------------------------------------------------------------------ C07
+V("c07-ps-salt-20", "C07", "break", "R07.1", "PSS salt length fixed to 20",
+  "rfc7518/jws_algs.py", "salt_length=self.hash_alg.digest_size)", "salt_length=20)")
+V("c07-ps-mgf-sha1", "C07", "break", "R07.1", "PSS MGF1 always SHA-1",
+  "rfc7518/jws_algs.py", "padding.PSS(mgf=padding.MGF1(self.hash_alg())", "padding.PSS(mgf=padding.MGF1(hashes.SHA1())")
+V("c07-es384-sha256", "C07", "break", "R07.1", "ES384 hashes with SHA-256",
+  "rfc7518/jws_algs.py", 'ECAlgModel("ES384", "P-384", 384),', 'ECAlgModel("ES384", "P-384", 256),')
+V("c07-hmac-hashed-key", "C07", "break", "R07.1", "HMAC keyed with a digest of the key",
+  "rfc7518/jws_algs.py", "        op_key = key.get_op_key(\"sign\")\n        return hmac.new(op_key, msg, self.hash_alg).digest()", "        op_key = key.get_op_key(\"sign\")\n        return hmac.new(hashlib.sha256(op_key).digest(), msg, self.hash_alg).digest()")
+V("c07-payload-std-b64", "C07", "break", "R07.2", "compact signing input with an unencoded payload",
+  "rfc7515/compact.py", "    payload_segment = urlsafe_b64encode(obj.payload)\n    signing_input", "    payload_segment = obj.payload\n    signing_input")
+V("c07-json-spaces", "C07", "break", "R07.5", "header JSON with default separators",
+  "util.py", "        text = json.dumps(text, ensure_ascii=True, separators=(\",\", \":\"))", "        text = json.dumps(text, ensure_ascii=True)")
+V("c07-okp-public-with-kty", "C07", "break", "R07.6", "OKP public export adds an extra member",
+  "rfc8037/okp_key.py", "            \"crv\": get_key_curve(key),\n            \"x\": urlsafe_b64encode(x_bytes).decode(\"utf-8\"),\n        }", "            \"crv\": get_key_curve(key),\n            \"x\": urlsafe_b64encode(x_bytes).decode(\"utf-8\"),\n            \"y\": \"\",\n        }")
+
+# ------------------------------------------------------------------------------------------------ C08
+V("c08-oaep-sha256-default", "C08", "break", "R08.1", "RSA-OAEP uses SHA-256",
+  "rfc7518/jwe_algs.py", "        padding.OAEP(padding.MGF1(hashes.SHA1()), hashes.SHA1(), None),\n        True,", "        padding.OAEP(padding.MGF1(hashes.SHA256()), hashes.SHA256(), None),\n        True,")
+V("c08-a192cbc-hash", "C08", "break", "R08.1", "A192CBC-HS384 built with SHA-256",
+  "rfc7518/jwe_encs.py", "    CBCHS2EncModel(192, 384),  # A192CBC-HS384", "    CBCHS2EncModel(192, 256),  # A192CBC-HS384")
+V("c08-pbes2-wrong-wrap", "C08", "break", "R08.1", "PBES2-HS384 wraps with A128KW",
+  "rfc7518/jwe_algs.py", "    PBES2HSAlgModel(384, A192KW),  # PBES2-HS384+A192KW", "    PBES2HSAlgModel(384, A128KW),  # PBES2-HS384+A192KW")
+V("c08-al-in-octets", "C08", "break", "R08.3", "AL counts octets instead of bits",
+  "rfc7518/jwe_encs.py", "        al = encode_int(len(aad) * 8, 64)", "        al = encode_int(len(aad), 64)")
+V("c08-mac-order", "C08", "break", "R08.3", "MAC input order iv || aad",
+  "rfc7518/jwe_encs.py", "        msg = aad + iv + ciphertext + al", "        msg = iv + aad + ciphertext + al")
+V("c08-key-halves-swapped", "C08", "break", "R08.3", "MAC key taken from the second half (encrypt side)",
+  "rfc7518/jwe_encs.py", "        hkey = cek[:self.key_len]\n        ekey = cek[self.key_len:]", "        ekey = cek[:self.key_len]\n        hkey = cek[self.key_len:]")
+V("c08-apu-apv-swapped", "C08", "break", "R08.4", "PartyVInfo before PartyUInfo",
+  "rfc7518/derive_key.py", "    fixed_info = alg_id + apu_info + apv_info + pub_info", "    fixed_info = alg_id + apv_info + apu_info + pub_info")
+V("c08-apu-not-decoded", "C08", "break", "R08.4", "apu used without base64url decoding",
+  "rfc7518/derive_key.py", "    apu_info = u32be_len_input(header.get(\"apu\"), True)", "    apu_info = u32be_len_input(header.get(\"apu\"))")
+V("c08-algid-always-enc", "C08", "break", "R08.4", "AlgorithmID is enc also in key-wrapping mode",
+  "rfc7518/derive_key.py", "        alg_id = u32be_len_input(header[\"alg\"])\n        bit_size = key_size", "        alg_id = u32be_len_input(header[\"enc\"])\n        bit_size = key_size")
+V("c08-1pu-z-order", "C08", "break", "R08.4", "ECDH-1PU Z = Zs || Ze on the encrypt side",
+  "drafts/jwe_ecdh_1pu.py", "        ephemeral_shared_key = ephemeral_key.exchange_derive_key(recipient_key)\n        shared_key = ephemeral_shared_key + sender_shared_key", "        ephemeral_shared_key = ephemeral_key.exchange_derive_key(recipient_key)\n        shared_key = sender_shared_key + ephemeral_shared_key")
+V("c08-pbes2-salt-order", "C08", "break", "R08.5", "PBES2 salt = p2s || 0x00 || alg",
+  "rfc7518/jwe_algs.py", "        salt = to_bytes(self.name) + b\"\\x00\" + p2s", "        salt = p2s + b\"\\x00\" + to_bytes(self.name)")
+V("c08-aad-header-incomplete", "C08", "break", "R08.2", "AAD computed before key management adds epk / iv / tag",
+  "rfc7516/message.py", "    enc = registry.get_enc(obj.protected[\"enc\"])\n    cek, delayed_tasks = pre_encrypt_recipients(enc, obj.recipients, registry)\n", "    enc = registry.get_enc(obj.protected[\"enc\"])\n    early = json_b64encode(obj.protected)\n    cek, delayed_tasks = pre_encrypt_recipients(enc, obj.recipients, registry)\n")
+V("c08-gcmkw-tag-not-published", "C08", "break", "R08.8", "AES-GCM-KW tag header holds the iv",
+  "rfc7518/jwe_algs.py", "        recipient.add_header(\"tag\", urlsafe_b64encode(enc.tag).decode(\"ascii\"))", "        recipient.add_header(\"tag\", urlsafe_b64encode(iv).decode(\"ascii\"))")
+V("c08-benign-struct-to-bytes", "C08", "benign", "", "length prefix through int.to_bytes",
+  "rfc7518/derive_key.py", "    return struct.pack(\">I\", len(sb)) + sb", "    return len(sb).to_bytes(4, \"big\") + sb")
+
+# ------------------------------------------------------------------------------------------------ C19
+V("c19-lenient-decode", "C19", "break", "R19.2", "b64decode without validate=True",
+  "util.py", "    return base64.b64decode(s, b\"-_\", validate=True)", "    return base64.b64decode(s, b\"-_\")")
+V("c19-plus-slash-accepted", "C19", "break", "R19.2", "'+' and '/' no longer refused",
+  "util.py", "    if b\"+\" in s or b\"/\" in s:\n        raise binascii.Error\n", "")
+V("c19-padded-encode", "C19", "break", "R19.3", "encoder keeps padding",
+  "util.py", "    return base64.urlsafe_b64encode(s).rstrip(b\"=\")", "    return base64.urlsafe_b64encode(s)")
+V("c19-negative-int", "C19", "break", "R19.4", "negative integers no longer refused",
+  "util.py", "    if num < 0:\n        raise ValueError(\"Must be a positive integer\")\n", "")
+V("c19-int-little-endian", "C19", "break", "R19.4", "integer codec little-endian",
+  "util.py", "    s = num.to_bytes((num.bit_length() + 7) // 8, \"big\", signed=False)", "    s = num.to_bytes((num.bit_length() + 7) // 8, \"little\", signed=False)")
+V("c19-base64-elsewhere", "C19", "break", "R19.1", "okp key import decodes with base64 directly",
+  "rfc8037/okp_key.py", "        x_bytes = urlsafe_b64decode(to_bytes(obj[\"x\"]))\n        return crv_key.from_public_bytes(x_bytes)", "        import base64\n        x_bytes = base64.urlsafe_b64decode(to_bytes(obj[\"x\"]) + b\"==\")\n        return crv_key.from_public_bytes(x_bytes)")
+V("c19-benign-from-bytes", "C19", "benign", "", "base64_to_int through int.from_bytes",
+  "util.py", "    buf = struct.unpack(\"%sB\" % len(data), data)\n    return int(\"\".join([\"%02x\" % byte for byte in buf]), 16)", "    return int.from_bytes(data, \"big\")")
